@@ -116,8 +116,10 @@ func (p *Parser) Parse() (al align.Alignment, err error) {
 		}
 	}
 
-	names := make([]string, nbseq)
-	seqs := make([]*bytes.Buffer, nbseq)
+	// Names and sequences are appended as they are read: the number of sequences
+	// announced in the header is not trusted for allocation
+	names := make([]string, 0, 100)
+	seqs := make([]*bytes.Buffer, 0, 100)
 
 	tok, lit = p.scan()
 	if tok != WS {
@@ -140,7 +142,7 @@ func (p *Parser) Parse() (al align.Alignment, err error) {
 			err = fmt.Errorf("0 Length sequences defined in the header")
 			return
 		}
-		if nbseq < 0 {
+		if lenseq < 0 {
 			err = fmt.Errorf("wrong sequence length in the header: %d", lenseq)
 			return
 		}
@@ -168,7 +170,7 @@ func (p *Parser) Parse() (al align.Alignment, err error) {
 			}
 			// We remove spaces from names...
 			name = strings.Replace(name, " ", "", -1)
-			names[i] = name
+			names = append(names, name)
 		} else {
 			tok, lit = p.scan()
 			if tok == EOF {
@@ -179,11 +181,11 @@ func (p *Parser) Parse() (al align.Alignment, err error) {
 				err = fmt.Errorf("bad Phylip format, we should have an sequence identifier after the header : %s", lit)
 				return
 			}
-			names[i] = lit
+			names = append(names, lit)
 		}
 
 		tok, lit = p.scan()
-		seqs[i] = new(bytes.Buffer)
+		seqs = append(seqs, new(bytes.Buffer))
 		for tok != ENDOFLINE {
 			switch tok {
 			case IDENTIFIER:
